@@ -319,7 +319,8 @@ Inductive top :=
 | TFlush (d : bool) (rh rb : N * bool) (n : N) (e : bool) (calls took : N)
 | TRead (d : bool) (code : N) (m : option msg) (re rn : N)
 | TMany (d : bool) (cnt : N) (m : msg) (okc : N) (se sn re rn : N)
-| TTamp (d : bool) (t : ptamper).
+| TTamp (d : bool) (t : ptamper)
+| TClear (d : bool).     (* Machine.releaseBuffers (Conn.ClearPendingSend) *)
 
 Record chan := mkCh {
   ch_snd : tsender;
@@ -413,6 +414,9 @@ Definition tstep (s : tstate) (o : top) : tstate * bool :=
     let c := get_ch s' d in
     (s', N.eqb k okc && pos_ok (sn_cs (ch_snd c)) se sn && pos_ok (ch_rcv c) re rn)
   | TTamp d t => (apply_ptamper s d t, true)
+  | TClear d =>
+    let c := get_ch s d in
+    (set_ch s d (mkCh (release_buffers N wsym (ch_snd c)) (ch_rcv c) (ch_pipe c) (ch_hist c)), true)
   end.
 
 Fixpoint trun (s : tstate) (ops : list top) (i : N) (bad : list N) : list N :=
@@ -462,7 +466,8 @@ Inductive kop :=
 | KRead (d : bool) (k : N) (code : N) (out : option msg)                        (* Conn.Read, len(b) = k *)
 | KReadNext (d : bool) (code : N) (out : option msg)                            (* ReadNextMessage *)
 | KReadHdr (d : bool) (code : N) (l : N)                                        (* ReadNextHeader *)
-| KReadBody (d : bool) (l : N) (code : N) (out : option msg).                   (* ReadNextBody *)
+| KReadBody (d : bool) (l : N) (code : N) (out : option msg)                    (* ReadNextBody *)
+| KClear (d : bool).                                                            (* ClearPendingSend *)
 
 (* one direction: the sending half of one Conn, the reading half of the other *)
 Record kchan := mkKC { kc_snd : tsender; kc_rd : creader N wsym }.
@@ -521,6 +526,9 @@ Definition kstep (s : kstate) (o : kop) : kstate * bool :=
     let c := get_kc s d in
     let '(r, rd') := x_conn_read_next_body (kc_rd c) l in
     (set_kc s d (mkKC (kc_snd c) rd'), res_check r code out)
+  | KClear d =>
+    let c := get_kc s d in
+    (set_kc s d (mkKC (release_buffers N wsym (kc_snd c)) (kc_rd c)), true)
   end.
 
 Fixpoint krun (s : kstate) (ops : list kop) (i : N) (bad : list N) : list N :=
